@@ -2,13 +2,14 @@
 import os, sys, json, shutil, subprocess, re, glob
 ROOT = "/verif"
 CONF = {}
-for l in open("/tmp/mut/confirm.jsonl"):
+import itertools
+for l in itertools.chain(open("/tmp/mut/confirm.jsonl"), open("/tmp/mut/confirm2.jsonl")):
     try:
         d = json.loads(l)
         CONF[d["dir"]] = d
     except Exception:
         pass
-EXTRA = {"C05": ["C05", "C06", "C17"], "C06": ["C06", "C05"], "C17": ["C17", "C05"]}
+EXTRA = {"C05": ["C05", "C06", "C17"], "C06": ["C06", "C05"], "C17": ["C17", "C05"], "C04": ["C04", "C02", "C09"], "C10": ["C10", "C02"]}
 only = sys.argv[1:]
 for d in sorted(glob.glob("/tmp/mut/C*_out/m*")):
     prop = os.path.basename(os.path.dirname(d))[:3]
